@@ -255,6 +255,9 @@ type c18Round struct {
 func runC18(ctx *Ctx) {
 	agent.VerifSetTimeouts(5*time.Second, 5*time.Second)
 	n := ctx.N(250, 6000)
+	if ctx.Want(n + 900) {
+		defer c18AgentBinary(ctx, n+900)
+	}
 	for c := 0; c < ctx.N(6, 60); c++ {
 		if ctx.Want(n + 500 + c) {
 			e2eCase(ctx, n+500+c, ctx.Sub(n+500+c), "c18-")
